@@ -350,3 +350,43 @@ func ZZ_C19_unpauseOutlivesTheCause() {
 	nondet.Observe("state", string(zzStored(c).Status.State))
 	nondet.Reach("C19.unpause-sticks.done", zzStored(c).Status.State == v1alpha1.ExtendedDaemonSetStatusStateCanary)
 }
+
+// ZZ_C19_failSurvivesAFailedRollbackWrite: "fail leads to the rollback" — also when the rollback does
+// not go through at the first attempt.  `canary fail` marks the canary replica set; the
+// ExtendedDaemonSet reconcile writes the status (status.canary cleared) and its second write, the
+// restored spec.template, is rejected (or the first one is, or none); the replica-set controller
+// then syncs the former canary replica set — no longer the canary according to the status — once
+// or not at all; the ExtendedDaemonSet reconcile is retried.  The command's effect is not lost:
+// the final state is the rollback.
+func ZZ_C19_failSurvivesAFailedRollbackWrite() {
+	c, _ := zzScenario("canary")
+	err := (&failOptions{client: c, IOStreams: zzIO, userNamespace: "ns", userExtendedDaemonSetName: "foo", failStatus: true}).run()
+	nondet.Assert("C19.fail-retry.command-accepted", err == nil)
+	if err != nil {
+		return
+	}
+	rejected := nondet.String("rejectedWrite", "none", "status", "spec")
+	c.InjectFaults = rejected != "none"
+	c.FaultForce = 1
+	c.FaultOnly = func(verb, kind, name, node string) bool {
+		if kind != "ExtendedDaemonSet" {
+			return false
+		}
+		return (rejected == "status" && verb == "status-update") || (rejected == "spec" && verb == "update")
+	}
+	_ = zzReconcileEDS(c)
+	c.InjectFaults = false
+	if nondet.Bool("replicaSetControllerSyncsInBetween") {
+		rsRec, _ := erscontroller.NewReconciler(erscontroller.ReconcilerOptions{}, c, c.Scheme(), logr.Logger{}, &fakeapi.Recorder{})
+		_, _ = rsRec.Reconcile(context.TODO(), reconcile.Request{NamespacedName: types.NamespacedName{Namespace: "ns", Name: "foo-b"}})
+	}
+	rerr := zzReconcileEDS(c)
+	if rerr == nil {
+		rerr = zzReconcileEDS(c)
+	}
+	final := zzStored(c)
+	nondet.Assert("C19.fail-retry.rollback", rerr == nil && final.Status.Canary == nil && final.Status.ActiveReplicaSet == "foo-a" &&
+		final.Spec.Template.Spec.Containers[0].Image == "agent:A")
+	nondet.Observe("state", string(final.Status.State))
+	nondet.Reach("C19.fail-retry.spec-write-rejected-then-replicaset-sync", rejected == "spec" && final.Spec.Template.Spec.Containers[0].Image == "agent:A")
+}
